@@ -77,6 +77,9 @@ var c13Queries = []c13query{
 	// one statement text, two readings: with the dialect option "a" is a column, without it a string
 	{name: "dquote-pg", sql: "SELECT \"a\" AS x FROM t", pg: true, expect: `{"x":1};{"x":2}`},
 	{name: "dquote-plain", sql: "SELECT \"a\" AS x FROM t", expect: `{"x":"a"};{"x":"a"}`},
+	// whole-row duplicates under DISTINCT and UNION next to another query that de-duplicates
+	{name: "distinct-rows", sql: "SELECT DISTINCT g, h FROM dd"},
+	{name: "union-distinct", sql: "SELECT g FROM dd UNION SELECT g FROM t"},
 	// the query's own parallelism only: one copy of the query per inner array, each with ASYNC calls
 	// the parent has to await; ASYNC / SPINASYNC calls that read or write the variable store next to
 	// the evaluating goroutine's own SETVAR / GETVAR
@@ -105,6 +108,10 @@ var c13Queries = []c13query{
 		return out
 	}},
 	{name: "async-in-subquery", sql: "SELECT id, (SELECT ASYNC.HMID(q) AS m FROM items) AS s FROM t", single: true},
+	// a PARALLEL join whose match fails (panics: the rows of a two-dimensional table are arrays, not
+	// objects) for every one of several keys: the failure is reported, nothing is left waiting
+	{name: "parallel-join-failing-keys", sql: "SELECT * FROM m3 PARALLEL JOIN u AS r ON id >= r.rid", single: true, mayFail: true, bag: true},
+	{name: "parallel-left-hash-join-failing-keys", sql: "SELECT * FROM m3 PARALLEL LEFT HASH_JOIN u AS r ON id = r.rid", single: true, mayFail: true, bag: true},
 	{name: "async-in-cte-twice", sql: "WITH c AS (SELECT id, ASYNC.HFAST(a) AS f FROM t) SELECT id FROM c UNION ALL SELECT id FROM c", single: true},
 }
 
@@ -179,6 +186,15 @@ func c13Doc() map[string]any {
 		"u": []any{
 			map[string]any{"rid": 0.0, "b": 2.0, "g": "x"},
 			map[string]any{"rid": 1.0, "b": 3.0, "g": "y"},
+		},
+		"m3": []any{
+			[]any{map[string]any{"id": 0.0, "a": 1.0}},
+			[]any{map[string]any{"id": 1.0, "a": 2.0}},
+			[]any{map[string]any{"id": 2.0, "a": 3.0}},
+		},
+		// duplicates in every column and as whole rows (DISTINCT, UNION)
+		"dd": []any{
+			map[string]any{"g": "x", "h": 1.0}, map[string]any{"g": "x", "h": 1.0}, map[string]any{"g": "y", "h": 1.0}, map[string]any{"g": "x", "h": 1.0},
 		},
 		"m": []any{
 			[]any{map[string]any{"id": 0.0, "a": 1.0}},
